@@ -12,6 +12,7 @@ import Ogen.OptNilStates_proof
 import Ogen.HandlerStages_proof
 import Ogen.Exchange_proof
 import Ogen.RefCache_proof
+import Ogen.CliStages_proof
 
 /-! Line-protocol driver over all executable models: `<model> <payload>` per line, one
     canonical output line per input line. Core-only (no Mathlib) so it links natively. -/
@@ -53,6 +54,7 @@ def dispatch (line : String) : String :=
     | "stage" => Stages.stageLine payload
     | "rsel" => Exchange.rselLine payload
     | "refs" => RefChain.refsLine payload
+    | "cli" => Cli.cliLine payload
     | "jeq" => JEqDrv.runLine payload
     | "enum" => JEqDrv.enumLine payload
     | _ => "bad-model"
